@@ -79,47 +79,80 @@ func c12NoOverwriteRule(w *World, r *Report, rule string) {
 	if g == nil {
 		panic(undecided{"schema.node.addChoice"})
 	}
-	loops := ssaLoops(g)
 	okScan, okAppend := false, false
 	var at token.Pos = g.Pos()
-	for _, l := range loops {
-		body := l.body()
-		for b := range body {
-			iff, ok := b.Instrs[len(b.Instrs)-1].(*ssa.If)
+	sym := NewSym(w)
+	isName := func(v ssa.Value) bool {
+		c, ok := outerValue(v).(*ssa.Call)
+		return ok && c.Call.IsInvoke() && nm(c.Call.Method) == "Name"
+	}
+	// the scan: left in the middle, with the redefinition error, exactly when an element has
+	// the name of the new choice (the scan may be a loop or slices.ContainsFunc with that test)
+	hit := pcZ
+	nHit, badExit := 0, false
+	var scanCall *ssa.Call
+	exits := searchExits(sym, g)
+	for _, ex := range exits {
+		if len(ex.ret.Results) != 1 {
+			continue
+		}
+		isNil := isNilConst(ex.ret.Results[0])
+		switch {
+		case ex.inLoop && !isNil:
+			nHit++
+			hit = pcOrF(hit, ex.cond)
+			if ex.list == nil || loadedFieldName(ex.list) != nm(choices) {
+				badExit = true
+			}
+			for _, a := range ex.cond.atoms() {
+				if a.iter {
+					scanCall, _ = a.v.(*ssa.Call)
+				}
+			}
+		case ex.inLoop && isNil:
+			badExit = true // leaves the scan early without the error
+		}
+	}
+	if nHit > 0 && !badExit {
+		okScan = pcCompare(hit, func(a *pcAtom) string {
+			if pcIsIter(a) {
+				return "iter"
+			}
+			if a.op == token.EQL && a.x != nil && a.y != nil && isName(a.x) && isName(a.y) {
+				return "same"
+			}
+			return ""
+		}, func(env map[string]bool) bool { return env["iter"] && env["same"] }) == ""
+	}
+	// the store to n.choices happens only after the scan is done
+	loops := ssaLoops(g)
+	for _, b := range g.Blocks {
+		for _, in := range b.Instrs {
+			st, ok := in.(*ssa.Store)
 			if !ok {
 				continue
 			}
-			bo, ok := iff.Cond.(*ssa.BinOp)
-			if !ok || bo.Op != token.EQL {
+			fa, ok := st.Addr.(*ssa.FieldAddr)
+			if !ok || !isFieldAddrOf(fa, choices) {
 				continue
 			}
-			isName := func(v ssa.Value) bool {
-				c, ok := v.(*ssa.Call)
-				return ok && c.Call.IsInvoke() && nm(c.Call.Method) == "Name"
-			}
-			if !(isName(bo.X) && isName(bo.Y)) {
+			at = st.Pos()
+			if scanCall != nil {
+				// reached only when the scan said no
+				key := sym.Key(scanCall, nil)
+				has := false
+				msg := pcImplies(sym.PathCond(g.Blocks[0], b, nil), func(a *pcAtom) string {
+					if a.key == key {
+						has = true
+						return "found"
+					}
+					return ""
+				}, func(env map[string]bool) bool { return !env["found"] })
+				okAppend = has && msg == "" && scanCall.Block().Dominates(b)
 				continue
 			}
-			eq := b.Succs[0]
-			if ret, ok := eq.Instrs[len(eq.Instrs)-1].(*ssa.Return); ok && len(eq.Preds) == 1 && len(ret.Results) == 1 {
-				if c, isC := ret.Results[0].(*ssa.Const); !isC || !c.IsNil() {
-					okScan = true
-				}
-			}
-		}
-		// the store to n.choices happens only after the loop is done
-		for _, b := range g.Blocks {
-			for _, in := range b.Instrs {
-				st, ok := in.(*ssa.Store)
-				if !ok {
-					continue
-				}
-				fa, ok := st.Addr.(*ssa.FieldAddr)
-				if !ok || !isFieldAddrOf(fa, choices) {
-					continue
-				}
-				at = st.Pos()
-				if !body[b] && l.Header.Dominates(b) {
+			for _, l := range loops {
+				if !l.body()[b] && l.Header.Dominates(b) {
 					okAppend = true
 				}
 			}
